@@ -3,11 +3,9 @@
 (M) TLC exhausts specs/puller/Puller.tla (processEntry / pullOnce / tryResumeFromPartial /
     FetchClient.Fetch / the LocalBackend staging protocol as written) over every bounded
     sequence of per-attempt outcomes x file sizes x staging files left by earlier attempts:
-      - FinalGood (a file at its final path has the manifest bytes) must hold on the model;
-      - CountedPresent and Converges are evaluated as well: a counterexample there is a
-        *candidate* only (the model as written predicts the staging-file presence defect),
-        and the same three invariants must hold on the model with Fix = "exists"
-        (presence decided by the final path), which validates the proposed repair.
+      - FinalGood, CountedPresent, Converges, GateSound must hold on the model of the code as it is now;
+      - negative controls: the model of the puller as it was written before the repairs
+        (/repo 11c4172, bd40fd9) must be rejected by TLC on CountedPresent / Converges / GateSound.
 (G) every behaviour TLC enumerates (Gen_*.cfg, one line per maximal behaviour with the
     predicted state after every attempt) is replayed against the real Puller + real
     FetchClient + real LocalBackend with a scripted loop-back peer that applies the scripted
@@ -30,18 +28,17 @@ def run(ctx):
         if mc.coverage.get(a, (0, 0))[0] == 0:
             raise InfraError("vacuous model: action %s never fired" % a)
     note = {"cfg": "MC_%s.cfg" % size, "distinct": mc.distinct, "generated": mc.generated, "depth": mc.depth,
-            "invariants_holding_as_built": ["TypeOK", "FinalGood"],
+            "invariants_holding": ["TypeOK", "FinalGood", "CountedPresent", "Converges", "GateSound"],
             "actions_fired": {k: v[0] for k, v in mc.coverage.items() if k in ACTIONS}}
-    # candidates: what the as-built model predicts for the two other clauses of the property
-    cands = {}
-    for cfg, inv in (("MC_presence.cfg", "CountedPresent"), ("MC_converge.cfg", "Converges")):
+    # negative controls: the model of the puller as it was written before the two repairs must be REJECTED by TLC
+    # (otherwise the invariants have lost their power to see the defects the repairs removed)
+    ncs = {}
+    for cfg, inv in (("NC_presence.cfg", "CountedPresent"), ("NC_converge.cfg", "Converges"), ("NC_gate.cfg", "GateSound")):
         r = ctx.tlc("puller", "Puller", cfg, timeout=600, workers=4, allow_violation=True)
-        cands[inv] = "counterexample (candidate, depth %d)" % len([l for l in r.counterexample if l.startswith("State ")]) \
-            if r.violated else "holds on the as-built model"
-    note["as_built_model_candidates"] = cands
-    fx = ctx.tlc("puller", "Puller", "MC_fixed.cfg", timeout=900, workers=4)
-    note["model_with_presence_by_final_path"] = {"cfg": "MC_fixed.cfg", "distinct": fx.distinct, "generated": fx.generated,
-                                                 "invariants": ["TypeOK", "FinalGood", "CountedPresent", "Converges"], "result": "hold"}
+        if r.violated != inv:
+            raise InfraError("negative control %s was not rejected by TLC (violated=%s)" % (cfg, r.violated))
+        ncs[cfg] = "rejected: %s (counterexample of %d states)" % (inv, len([l for l in r.counterexample if l.startswith("State ")]))
+    note["negative_controls"] = ncs
     ctx.note("tlc_model_check", note)
 
     gen = ctx.tlc("puller", "Puller", "Gen_%s.cfg" % size, timeout=1500, workers=4)
